@@ -80,9 +80,6 @@ func DecodeRuns(bs []byte, w int) ([]Run, error) {
 		}
 		if h&1 == 0 {
 			cnt := int(h >> 1)
-			if cnt < 1 {
-				return nil, fmt.Errorf("%w: RLE run of length 0", ErrMalformed)
-			}
 			nb := (w + 7) / 8
 			if pos+nb > len(bs) {
 				return nil, fmt.Errorf("%w: truncated RLE value", ErrMalformed)
@@ -179,7 +176,7 @@ func EncodeSegs(levels []uint8, w int, segs []Seg, pad uint8) ([]byte, error) {
 	var body []byte
 	pos := 0
 	for si, s := range segs {
-		if s.N < 1 || pos+s.N > len(levels) {
+		if s.N < 0 || (s.N == 0 && !s.RLE) || pos+s.N > len(levels) { // RLE with N == 0: an empty run (stands for no value)
 			return nil, fmt.Errorf("pq: segment %d does not fit", si)
 		}
 		hdr := func(h uint64) {
@@ -198,7 +195,11 @@ func EncodeSegs(levels []uint8, w int, segs []Seg, pad uint8) ([]byte, error) {
 			}
 			hdr(uint64(s.N) << 1)
 			if w > 0 {
-				body = append(body, levels[pos])
+				if s.N == 0 {
+					body = append(body, pad&uint8(1<<uint(w)-1)) // the value of an empty run is arbitrary
+				} else {
+					body = append(body, levels[pos])
+				}
 			}
 		} else {
 			if s.N%8 != 0 && si != len(segs)-1 {
@@ -266,6 +267,9 @@ func RandSegs(seed uint64, levels []uint8) []Seg {
 		c := 1
 		for pos+c < len(levels) && levels[pos+c] == levels[pos] {
 			c++
+		}
+		if next(23) == 0 {
+			segs = append(segs, Seg{RLE: true, N: 0}) // an empty RLE run
 		}
 		if next(2) == 0 {
 			n := 1 + next(c)
